@@ -5,7 +5,7 @@ CONSTANTS
   Size = 2
   MaxTxsBytes = 3
   MaxTxBytes = 2
-  CacheSize = 1
+  CacheSize = 0
   KeepInvalid = FALSE
   Recheck = TRUE
   TTL = 0
@@ -26,13 +26,13 @@ CONSTANTS
   Weak_ReapOffByOne = FALSE
   Weak_FullCheckOnlyOnAdmit = FALSE
   Weak_EvictWithoutBytes = FALSE
-  Weak_CacheNotUpdatedOnCommit = TRUE
+  Weak_CacheNotUpdatedOnCommit = FALSE
   Weak_RecheckKeepsRejected = FALSE
-  Weak_NonAtomicAdmission = FALSE
+  Weak_NonAtomicAdmission = TRUE
 INIT Init
 NEXT NextCore
 CONSTRAINT DepthOK
-INVARIANTS InvCommittedGone
+INVARIANTS InvUnique
 
 VIEW View
 CHECK_DEADLOCK FALSE
